@@ -54,6 +54,8 @@ static bool all_zero(const Bytes& b) { for (u8 x : b) if (x) return false; retur
 
 static std::string chain_str(const std::vector<LayerView>& v) { std::string s; for (size_t i = 0; i < v.size() && i < 14; ++i) { if (i) s += '/'; s += v[i].cls; } return s; }
 
+static bool g_built = false;
+static std::string g_kp;      // key prefix: "" for parse->serialize->parse, "built/" for API-built -> serialize -> parse
 static void compare(const std::string& ename, const std::vector<LayerView>& a0, const std::vector<LayerView>& b0, const Bytes& y, const std::string& ctx) {
     std::vector<LayerView> a = a0, b = b0; strip_empty_tail(a); strip_empty_tail(b);
     // minimum-frame padding: some Ethernet-like layer of the re-parsed packet carries a frame of at most 64 bytes
@@ -62,19 +64,31 @@ static void compare(const std::string& ename, const std::vector<LayerView>& a0, 
     (void)y;
     // Ethernet minimum-frame padding exposed by the re-parse as a trailing all-zero payload
     if (b.size() == a.size() + 1 && b.back().is_raw && all_zero(b.back().raw) && min_frame) { cnt("normalised:min-frame-padding-as-payload"); b.pop_back(); b.back().has_next = a.back().has_next; b.back().next_is_raw_nonempty = a.back().next_is_raw_nonempty; }
-    if (a.size() != b.size() || chain_str(a) != chain_str(b)) { violation("layers-differ/" + ename + "/" + (a.empty() ? "?" : a[0].cls), "parsed " + chain_str(a) + " but the re-parse of its serialization gives " + chain_str(b) + " :: " + ctx); return; }
+    if (a.size() != b.size() || chain_str(a) != chain_str(b)) { violation(g_kp + "layers-differ/" + ename + "/" + (a.empty() ? "?" : a[0].cls), "parsed " + chain_str(a) + " but the re-parse of its serialization gives " + chain_str(b) + " :: " + ctx); return; }
     for (size_t i = 0; i < a.size(); ++i) {
         const LayerView& x = a[i]; const LayerView& z = b[i];
         if (x.is_raw) { if (x.raw != z.raw) { Bytes zr = z.raw; // padding appended to the innermost payload of a short frame
-                if (i + 1 == a.size() && zr.size() > x.raw.size() && (min_frame || (icmp_pad && zr.size() - x.raw.size() < 8)) && std::equal(x.raw.begin(), x.raw.end(), zr.begin()) && all_zero(Bytes(zr.begin() + x.raw.size(), zr.end()))) { cnt(min_frame ? "normalised:min-frame-padding-appended" : "normalised:rfc4884-word-padding-appended"); continue; }
-                violation("payload-differs/" + ename + "/" + (i ? a[i - 1].cls : "root"), "payload bytes changed: " + hex(x.raw, 40) + " -> " + hex(z.raw, 40) + " :: " + ctx); return; } continue; }
+                if (i + 1 == a.size() && zr.size() > x.raw.size() && (min_frame || (icmp_pad && (zr.size() - x.raw.size() < 8 || zr.size() == 128))) && std::equal(x.raw.begin(), x.raw.end(), zr.begin()) && all_zero(Bytes(zr.begin() + x.raw.size(), zr.end()))) { cnt(min_frame ? "normalised:min-frame-padding-appended" : "normalised:rfc4884-word-padding-appended"); continue; }
+                violation(g_kp + "payload-differs/" + ename + "/" + (i ? a[i - 1].cls : "root"), "payload bytes changed: " + hex(x.raw, 40) + " -> " + hex(z.raw, 40) + " :: " + ctx); return; } continue; }
         for (size_t k = 0; k < x.kv.size() && k < z.kv.size(); ++k) {
             const std::string& key = x.kv[k].first; if (key == "class") continue;
             if (x.kv[k].second == z.kv[k].second) continue;
+            if (g_built) {
+                auto strip = [](std::string t) { size_t p = t.find("ICMPExtensionsStructure.checksum="); if (p != std::string::npos) { size_t e2 = t.find(';', p); t.erase(p, e2 == std::string::npos ? std::string::npos : e2 - p + 1); } return t; };
+                if ((key == "ICMP.extensions" || key == "ICMPv6.extensions") && strip(x.kv[k].second) == strip(z.kv[k].second)) { cnt("derived_field_changed"); continue; }      // the structure's checksum is computed while writing
+                static const std::set<std::string> api_only = {"Dot1Q.append_padding", "ICMP.use_length_field", "ICMPv6.use_length_field", "ICMPv6.use_mldv2"};      // switches of the encoder, not fields of the message
+                if (api_only.count(key)) { cnt("built:api-only-switch-differs"); continue; }
+                if (key.size() > 12 && key.compare(key.size() - 12, 12, ".header_size") == 0) { cnt("built:header-size-follows-the-option-list"); continue; }     // computed from the option list, which is compared itself
+                if (key == "BootP.vend" && x.cls == "DHCP") { cnt("built:dhcp-vend-is-the-options-area"); continue; }       // DHCP keeps its encoded options in BootP's vend area after serializing
+                if (key == "RTP.extension_profile") { bool xbit = false; for (auto& kv2 : x.kv) if (kv2.first == "RTP.extension_bit" && kv2.second != "0") xbit = true; if (!xbit) { cnt("built:rtp-profile-without-extension-bit"); continue; } }
+                if (key == "IP.options") {      // an explicit End-of-options-list entry terminates the list for every parser
+                    auto strip_end = [](std::string t) { const std::string e1 = ",opt{{number=0;op_class=0;copied=0;},len=0,lf=0,}]", e2 = "[opt{{number=0;op_class=0;copied=0;},len=0,lf=0,}]"; if (t.size() >= e1.size() && t.compare(t.size() - e1.size(), e1.size(), e1) == 0) t = t.substr(0, t.size() - e1.size()) + "]"; else if (t == e2) t = "[]"; return t; };
+                    if (strip_end(x.kv[k].second) == z.kv[k].second) { cnt("built:ip-end-of-list-option-dropped"); continue; } }
+            }
             if (derived().count(key)) { cnt("derived_field_changed"); continue; }
             if (x.rfc4884 && rfc4884_alias().count(key)) { cnt("rfc4884_length_alias_changed"); continue; }
             if (tags().count(key)) { if (!x.next_is_raw_nonempty) { cnt(x.has_next ? "tag_rederived_for_recognised_payload" : "tag_free_without_payload"); continue; } }
-            violation("view-differs/" + key, key + ": " + x.kv[k].second.substr(0, 120) + " -> " + z.kv[k].second.substr(0, 120) + " in layer " + std::to_string(i) + " of " + chain_str(a) + " :: " + ctx); return;
+            violation(g_kp + "view-differs/" + key, key + ": " + x.kv[k].second.substr(0, g_built ? 600 : 120) + " -> " + z.kv[k].second.substr(0, g_built ? 600 : 120) + " in layer " + std::to_string(i) + " of " + chain_str(a) + " :: " + ctx); return;
         }
     }
     cnt("views_equal");
@@ -85,6 +99,45 @@ int main(int argc, char** argv) {
     std::vector<size_t> pe;
     return vf::run(argc, argv, "C03", [&](long idx, Rng& r) {
         if (pe.empty()) for (size_t i = 0; i < entries.size(); ++i) if (entries[i].ispdu) pe.push_back(i);
+        if (st().a.mode == "built") {
+            // C04's second sentence on whole stacks: what the building API assembled is what a parser of its serialization gets back
+            PktGen g(r); std::unique_ptr<PDU> p(g.packet());
+            std::vector<PDU*> layers; for (PDU* q = p.get(); q; q = q->inner_pdu()) layers.push_back(q);
+            PDU* root = r.chance(2, 3) ? p.get() : layers[r.below((u32)layers.size())];
+            const Entry* e = nullptr; for (size_t i : pe) if (entries[i].is_class(root)) { e = &entries[i]; break; }
+            if (!e) { cnt("built:no-entry-point-for-root"); return; }
+            std::string ctx = "built: " + g.trace + " rooted at " + cls(root); describe_case(ctx);
+            if (not_serializable_root(root) || ip_root_needs_routing(root)) { cnt("skipped_not_serializable_or_routing"); return; }
+            Bytes y; try { y = root->serialize(); } catch (...) { cnt("serialize_threw(C02's business)"); return; }
+            if (y.size() > 65535 || y.empty()) { cnt("skipped_oversize_or_empty"); return; }
+            // packets whose parse is a guess: an opaque payload under a layer that has no next-protocol field (label stack: IP by first nibble; 802.11 data:
+            // LLC/SNAP by content), and discovery tags on a session-stage PPPoE packet (on the wire they are the session payload)
+            for (PDU* x = root; x; x = x->inner_pdu()) {
+                bool guess = dynamic_cast<MPLS*>(x) || dynamic_cast<Dot11Data*>(x);
+                if (guess && x->inner_pdu() && dynamic_cast<RawPDU*>(x->inner_pdu())) { cnt("built:skipped:opaque-payload-under-" + cls(x)); return; }
+                if (PPPoE* pp = dynamic_cast<PPPoE*>(x)) if (pp->code() == 0 && !pp->tags().empty()) { cnt("built:skipped:pppoe-session-packet-with-tags"); return; }
+            }
+            std::vector<LayerView> va = views(root);        // after serialize(): derived fields now hold what was written
+            std::unique_ptr<PDU> q;
+            try { ExactBuf buf(y); q.reset(e->parse(buf.data(), (u32)y.size())); }
+            catch (const std::exception& ex) { violation("built/reparse-rejects/" + e->name + "/" + demangle(typeid(ex).name()), "libtins rejects its own serialization of an API-built packet (" + std::string(ex.what()) + "), chain=" + chain_str(va) + " y=" + hex(y, 200) + " :: " + ctx); return; }
+            cnt("built:roundtrips"); cnt("built:" + e->name);
+            std::vector<LayerView> vb = views(q.get());
+            // Where the two chains stop having the same classes, the rest is compared as bytes: a parser can only dissect what the wire announces
+            // (UDP payloads stay raw, a label stack guesses IP from the first nibble, 802.11 data frames guess LLC/SNAP, ...).
+            { std::vector<PDU*> la, lb; for (PDU* x = root; x; x = x->inner_pdu()) la.push_back(x); for (PDU* x = q.get(); x; x = x->inner_pdu()) lb.push_back(x);
+              size_t i = 0; while (i < la.size() && i < lb.size() && typeid(*la[i]) == typeid(*lb[i])) ++i;
+              if (i < la.size() || i < lb.size()) {
+                  Bytes ta, tb; try { if (i < la.size()) ta = la[i]->serialize(); if (i < lb.size()) tb = lb[i]->serialize(); } catch (...) { cnt("built:tail-serialize-threw"); return; }
+                  size_t m = std::min(ta.size(), tb.size()); bool same = std::equal(ta.begin(), ta.begin() + m, tb.begin()) && all_zero(Bytes(ta.begin() + m, ta.end())) && all_zero(Bytes(tb.begin() + m, tb.end()));
+                  if (!same || i == 0) { violation("built/tail-bytes-differ/" + e->name + "/" + (i ? cls(la[i - 1]) : std::string("root")), "below layer " + std::to_string(i) + " the API-built packet has " + chain_str(va) + " and the parse of its serialization " + chain_str(vb) + ", and the bytes of the two tails differ: " + hex(ta, 60) + " vs " + hex(tb, 60) + " :: " + ctx); return; }
+                  cnt("built:normalised:tail-dissected-differently-same-bytes/" + cls(la[i - 1]));
+                  va.resize(i); vb.resize(i); va.back().has_next = vb.back().has_next = true; va.back().next_is_raw_nonempty = vb.back().next_is_raw_nonempty = true;
+              } }
+            g_kp = "built/"; g_built = true; compare(e->name, va, vb, y, ctx + " y=" + hex(y, 300)); g_kp = ""; g_built = false;
+            sig(mix(fnv(ctx), fnv(y.data(), std::min<size_t>(y.size(), 96))));
+            return;
+        }
         const Entry& e = entries[pe[idx % pe.size()]]; size_t pair = (size_t)idx / pe.size();
         auto one = [&](const Bytes& in, const char* how) {
             if (in.size() > 65535) return;
